@@ -114,7 +114,7 @@ fn sheet(name: String, n_strings: u32, n_xf: u16) -> impl Strategy<Value = LShee
     })
 }
 
-fn case_strategy() -> impl Strategy<Value = Case> {
+pub fn case_strategy() -> impl Strategy<Value = Case> {
     (proptest::collection::vec("[a-zA-Z0-9 éß]{1,12}", 0..6), 1usize..3).prop_flat_map(|(strings, n)| {
         let ns = strings.len() as u32;
         let names = ["Sheet1", "Données"];
